@@ -18,6 +18,9 @@ EXPLANATION = (
     "include_homozygous modes and homozygous_positions only contains retained variants; conflicts are added exactly when all three genotypes are present and mendelian_conflict holds; "
     "R3 -- homozygous positions are made accessible only for len(family) > 1 with genetic haplotyping, whose CLI default is True; R4 -- the transmission bit layout of C++ (father bit 2t, mother bit 2t+1) matches its Python decoding."
 )
+EXPLANATION += (
+    " " + "R1 also (hops 3b/3c): in setup_families no family_finder.merge is reachable after a family_finder.find (representatives are final when families / family_trios are keyed), and every trio of all_trios is filed under its child's family."
+)
 NOT_DECIDED = "mendelian_conflict's truth table over genotype values and the allele-assignment filter of the cost computer (value level)."
 ASSUMPTIONS = ["Pedigree::addIndividual assigns indices in call order (checked), ReadSet keeps insertion order until sort() is called"]
 
@@ -144,6 +147,24 @@ def r1(ctx):
     srt = [c for c in ctx.prog.calls_in(run.node) if isinstance(c.func, ast.Attribute) and c.func.attr == "sort" and "superread" in u(c.func.value)]
     hop("9d super-read order untouched", not srt, run.loc(srt[0]) if srt else run.loc(), "the two super reads of a sample are never re-sorted between solver and writer", "super reads are re-sorted (%s): haplotype 0/1 can swap" % (u(srt[0]) if srt else ""))
 
+    # every trio is filed under the FINAL representative of its family: representatives are read only after all merges
+    sf = ctx.func(PH + ".setup_families")
+    scfg = ctx.cfg(sf)
+    rel = util.result_relevant_names(sf.node)
+    finds = [c for c in ctx.prog.calls_in(sf.node) if u(c.func) == "family_finder.find" and util.affects_result(sf.node, util.stmt_of(c), rel)]
+    merges = [c for c in ctx.prog.calls_in(sf.node) if u(c.func) == "family_finder.merge"]
+    ctx.require(len(finds) >= 2 and len(merges) >= 2, "family_finder.find / .merge calls not found in setup_families")
+    stale = None
+    for f_ in finds:
+        for m_ in merges:
+            p_ = scfg.find_path(scfg.node_containing(f_), scfg.node_containing(m_), start_after=True)
+            if p_ is not None and stale is None:
+                stale = (f_, m_, p_)
+    hop("3b representatives read after all merges", stale is None, sf.loc(stale[0]) if stale else sf.loc(), "no family_finder.merge is reachable after a family_finder.find: families and family_trios are keyed by final representatives", "%s is evaluated while merges are still to come (%s): a trio/sample is filed under a representative that later changes, so the trio is missing from its family's pedigree" % (u(stale[0]) if stale else "", u(stale[1]) if stale else ""))
+    ft = [s_ for s_ in util.store_sites(sf.node) if s_.kind == "call" and s_.method == "append" and u(s_.target).startswith("family_trios[")]
+    ok = len(ft) == 1 and isinstance(ft[0].stmt.parent, ast.For) and u(ft[0].stmt.parent.iter) == "all_trios" and u(ft[0].call.args[0]) == u(ft[0].stmt.parent.target) and u(ft[0].target) == "family_trios[family_finder.find(%s.child)]" % u(ft[0].stmt.parent.target)
+    hop("3c every trio filed under its child's family", ok, sf.loc(ft[0].stmt) if ft else sf.loc(), "for trio in all_trios: family_trios[find(trio.child)].append(trio)", "not every trio of the pedigree is appended to family_trios under its child's family")
+
 
 def r2(ctx):
     fi = ctx.func(PH + ".find_phaseable_variants")
@@ -180,8 +201,9 @@ def r2(ctx):
         # walk the straight-line assignments in order, taking the branch of `include_homozygous`
         def run_block(stmts):
             for s in stmts:
-                if isinstance(s, ast.If) and u(s.test) == "include_homozygous":
-                    run_block(s.body if mode else s.orelse)
+                if isinstance(s, ast.If) and atoms(s.test, True) in ({("include_homozygous", True)}, {("include_homozygous", False)}):
+                    positive = atoms(s.test, True) == {("include_homozygous", True)}
+                    run_block(s.body if mode == positive else s.orelse)
                 elif isinstance(s, ast.Assign) and isinstance(s.targets[0], ast.Name) and s.targets[0].id in ("to_retain", "to_discard"):
                     v = ev(s.value, env)
                     if v is not None:
@@ -237,14 +259,11 @@ def r2(ctx):
     ok = util.params_of(pc.node) == ["genotypem", "genotypef", "genotypec"]
     ctx.ob(pc.qual, "mendelian_conflict-parameter-order", ok, pc.loc(), "mendelian_conflict(mother, father, child)" if ok else "mendelian_conflict parameters are %s" % util.params_of(pc.node))
     # the predicate tests both ways of drawing one child allele from each parent, as mirror images
-    ifs = [n for n in walk_function(pc.node) if isinstance(n, ast.If)]
+    pcfg = ctx.cfg(pc)
     conj = []
-    n_ = ifs[0] if ifs else None
-    while isinstance(n_, ast.If):
-        rf = [b for b in n_.body if isinstance(b, ast.Return)]
-        if rf and isinstance(rf[0].value, ast.Constant) and rf[0].value.value is False and isinstance(n_.test, ast.BoolOp) and isinstance(n_.test.op, ast.And):
-            conj.append(sorted(u(v) for v in n_.test.values))
-        n_ = n_.orelse[0] if len(n_.orelse) == 1 and isinstance(n_.orelse[0], ast.If) else (None if not n_.orelse else n_.orelse[-1])
+    for r_ in [n for n in walk_function(pc.node) if isinstance(n, ast.Return) and isinstance(n.value, ast.Constant) and n.value.value is False]:
+        ga_ = guard_atoms(pcfg, pcfg.node_of(r_))
+        conj.append(sorted(t for t, p_ in ga_ if p_ and " in alleles_" in t))
     defs = {k: util.single_def(pc.node, k) for k in ("alleles_m", "alleles_f", "alleles_c")}
     okd = all(v is not None for v in defs.values()) and u(defs["alleles_m"]) == "genotypem.as_vector()" and u(defs["alleles_f"]) == "genotypef.as_vector()" and u(defs["alleles_c"]) == "genotypec.as_vector()"
     want = sorted([sorted(["alleles_c[0] in alleles_m", "alleles_c[1] in alleles_f"]), sorted(["alleles_c[1] in alleles_m", "alleles_c[0] in alleles_f"])])
@@ -323,4 +342,4 @@ RULES = [
     ("C05.R3", "genetic phasing of homozygous-parent variants on by default", r3),
     ("C05.R4", "transmission bit layout agrees between C++ and Python", r4),
 ]
-FLOORS = {"C05.R1": 14, "C05.R2": 14, "C05.R3": 4, "C05.R4": 7}
+FLOORS = {"C05.R1": 16, "C05.R2": 14, "C05.R3": 4, "C05.R4": 7}
